@@ -144,6 +144,8 @@ def gen_case(rng, tier):
             op["form"] = rng.choice(("lists", "stack3d", "view", "tuple"))
         if insts[k]["type"] == "imager" and kind in ("transform", "transform2"):
             op["n_jobs"] = rng.choice((None, None, 2, 3, 1))
+        if insts[k]["type"] == "imager" and rng.random() < 0.25:
+            op["skew"] = False                    # the data are handed over as birth-persistence pairs
         if insts[k]["type"] == "imager" and op.get("form") != "lists" and rng.random() < 0.3:
             op["dtype"] = "f32"                   # what ripser hands out; estimator and fresh twin get the same arrays
         ops.append(op)
@@ -400,10 +402,16 @@ def _run(case, sched, world):
         if nj is not None and (not isinstance(nj, int) or nj == 0):
             raise InvalidCase("n_jobs")
         kw = {"n_jobs": nj} if (it["type"] == "imager" and nj is not None) else {}
+        sk = {}
+        if op.get("skew") is not None:
+            if it["type"] != "imager" or op["skew"] is not False:
+                raise InvalidCase("skew")
+            sk = {"skew": False}
+        kw.update(sk)
 
         def fresh_twin_fitted():
             tw = make(it)
-            _call(tname + ".fit(twin)", tw.fit, [x.copy() for x in Xkeep])
+            _call(tname + ".fit(twin)", tw.fit, [x.copy() for x in Xkeep], **sk)
             return tw
 
         if kind in ("fit", "fit_transform"):
@@ -413,10 +421,10 @@ def _run(case, sched, world):
                 refits_diff += 1
             site = "%s.%s%s" % (tname, kind, nth)
             if kind == "fit":
-                _call(site, est.fit, X)
+                _call(site, est.fit, X, **sk)
                 out = None
             else:
-                out = out_list(it, _call(site, est.fit_transform, X))
+                out = out_list(it, _call(site, est.fit_transform, X, **sk))
             evals += 1
             fitted_on[k].append(j)
             last_fit_data[k] = j
@@ -429,12 +437,12 @@ def _run(case, sched, world):
                                 "after fitting on data set %d (earlier fits on %r) the estimator has %s=%r, a fresh "
                                 "estimator with the same constructor arguments fitted on the same data has %r"
                                 % (j, fitted_on[k][:-1], diff, pub_state(it, est)[diff], pub_state(it, tw)[diff]), opi)
-            want = out_list(it, _call(tname + ".transform(twin)", tw.transform, [x.copy() for x in Xkeep]))
+            want = out_list(it, _call(tname + ".transform(twin)", tw.transform, [x.copy() for x in Xkeep], **sk))
             if out is not None:
                 if not same_out(out, want):
                     raise Violation("fit_transform==fit-then-transform", site, "output",
                                     "fit_transform output differs from fit followed by transform on a fresh twin", opi)
-            got = out_list(it, _call(tname + ".transform", est.transform, X))
+            got = out_list(it, _call(tname + ".transform", est.transform, X, **sk))
             evals += 1
             if not same_out(got, want):
                 raise Violation("fit-depends-only-on-latest-data", site, "output",
@@ -469,17 +477,17 @@ def _run(case, sched, world):
             if diff is not None:
                 raise Violation("transform-leaves-fitted-state", site, diff,
                                 "%s changed from %r to %r across transform" % (diff, before[diff], after[diff]), opi)
-            o2 = out_list(it, _call(site, est.transform, X, **({} if kind == "transform" else kw)))
+            o2 = out_list(it, _call(site, est.transform, X, **(sk if kind == "transform" else kw)))
             evals += 1
             if not same_out(o1, o2):
                 raise Violation("transform-repeatable", site, "differs", "two transforms of the same input differ", opi)
             if it["type"] == "imager":
                 # element by element, in order: image k is the image of diagram k alone
                 for idx, d in enumerate(X_arrays):
-                    single = np.asarray(_call(site, est.transform, d), float)
+                    single = np.asarray(_call(site, est.transform, d, **sk), float)
                     evals += 1
                     if not same_out([o1[idx]], [single]):
-                        other = [q for q in range(len(X_arrays)) if q != idx and same_out([o1[idx]], [np.asarray(est.transform(X_arrays[q]), float)])]
+                        other = [q for q in range(len(X_arrays)) if q != idx and same_out([o1[idx]], [np.asarray(est.transform(X_arrays[q], **sk), float)])]
                         raise Violation("collection-element-by-element-in-order", site, "order" if other else "value",
                                         "output #%d of the collection is not the image of diagram #%d%s; mode=%s"
                                         % (idx, idx, " (it is the image of #%r)" % other if other else "", world.mode), opi)
@@ -523,7 +531,7 @@ def shrink_candidates(case):
             c = copy.deepcopy(case)
             c["ops"][i]["n_jobs"] = None
             yield c
-        for key in ("dtype", "form", "alias"):
+        for key in ("dtype", "form", "alias", "skew"):
             if o.get(key) is not None:
                 c = copy.deepcopy(case)
                 del c["ops"][i][key]
